@@ -688,11 +688,18 @@ func (u *Ufs) Wstat(req *SrvReq) {
 		// cwd.
 		var destpath string
 		if dir.Name[0] == '/' {
-			destpath = filepath.Join(u.Root, dir.Name)
+			destpath = u.rooted(dir.Name)
 			fmt.Printf("/ results in %s\n", destpath)
 		} else {
+			// relative to the file's directory, itself taken relative
+			// to the root so that ".." cannot climb above the root
 			fiddir, _ := path.Split(fid.path)
-			destpath = filepath.Join(fiddir, dir.Name)
+			rel, err := filepath.Rel(filepath.Clean(u.Root), filepath.Clean(fiddir))
+			if err != nil {
+				req.RespondError(toError(err))
+				return
+			}
+			destpath = u.rooted(filepath.Join(rel, dir.Name))
 			fmt.Printf("rel  results in %s\n", destpath)
 		}
 		err := syscall.Rename(fid.path, destpath)
